@@ -121,7 +121,7 @@ class G:
                 return ["coll", o, self.hashable_ty(d)]
             return ["coll", o, self.ty(d)]
         if c < 0.52 and self.f["map"]:
-            o = r.choice(["dict", "dict", "odict"] + (["mproxy"] if self.f["mproxy"] else []) + (["counter"] if self.f["counter"] else []))
+            o = r.choice(["dict", "dict", "odict"] + (["mproxy"] if self.f["mproxy"] else []) + (["counter"] if self.f["counter"] else []) + (["ddict"] if self.f.get("ddict", True) else []))
             if o == "counter":
                 return ["map", "counter", self.key_ty(), "int"]
             return ["map", o, self.key_ty(), self.ty(d)]
